@@ -315,9 +315,11 @@ theorem regMapHwpe_nodup : regMapHwpe.addrs.Nodup := by decide
 
 
 
-theorem xdmaSetupFields_length (s : Streamer) (cfg : Cfg) : 4 ≤ (xdmaSetupFields (s :: cfg)).length := by
+/-- an xDMA instance has a reader and a writer: the four pointer fields come first -/
+theorem xdmaSetupFields_length (s1 s2 : Streamer) (cfg : Cfg) :
+    4 ≤ (xdmaSetupFields (s1 :: s2 :: cfg)).length := by
   simp only [xdmaSetupFields, named, alphabet, List.length_cons, List.take_succ_cons, List.zip_cons_cons,
-    List.flatMap_cons, List.length_append, xdmaStreamerFields]
+    List.flatMap_cons, List.length_append]
   simp only [List.length_cons, List.length_nil]
   omega
 
